@@ -144,10 +144,17 @@ func checkSingle(p string) string {
 		if pathOK != wantPath {
 			return fmt.Sprintf("L6 NewMux(%q) accepted=%v, want %v (valid pattern, wildcard-free=%v)", p, pathOK, wantPath, wantPath)
 		}
-		if wantPath && p != "" {
+		if p != "" {
 			mountOK := !panics(func() { res.NewMux("").Mount(p, res.NewMux("")) })
-			if !mountOK {
+			if wantPath && !mountOK {
 				return fmt.Sprintf("L6 Mount(%q) rejected a valid wildcard-free path", p)
+			}
+			if !wantPath && mountOK {
+				return fmt.Sprintf("L6 Mount(%q) accepted a path with a wildcard or placeholder, which NewMux rejects as path", p)
+			}
+			routeOK := !panics(func() { res.NewMux("").Route(p, nil) })
+			if routeOK != mountOK {
+				return fmt.Sprintf("L6 Route(%q) accepted=%v but Mount accepted=%v", p, routeOK, mountOK)
 			}
 		}
 	} else {
@@ -332,7 +339,9 @@ func genValidPattern() *rapid.Generator[string] {
 				toks[i] = lit.Draw(t, "lit")
 			case k <= 6:
 				name := rapid.SampledFrom([]string{"id", "a", "b", "x$", "long-name_1", "k"}).Draw(t, "pname")
-				for used[name] {
+				// (one pattern in ten may name a placeholder twice: valid as a pattern, a
+				// conflict only at registration)
+				for used[name] && rapid.IntRange(0, 9).Draw(t, "dupok") != 0 {
 					name += "x"
 				}
 				used[name] = true
